@@ -56,13 +56,13 @@ def _turn(tau_low, tau_high, loops, ops_cap, tokens, ti):
 @H.ob(model="realfin", quick=400, thorough=900, per_path=200,
       targets=("clematis/engine/orchestrator/core.py:Orchestrator.run_turn", "clematis/engine/stages/t3/policy.py:deliberate", "clematis/engine/stages/t3/legacy.py:rag_once", "clematis/engine/stages/t3/dialogue.py:speak"),
       stubs=("TurnSpy log/snapshot capture", "memory.index._cosine -> concrete scores 0.5/0.35/0.2 (best similarity 0.5)", "orchestrator.t2_semantic stage hook -> counting wrapper around the real t2_semantic"),
-      bounds="one real turn on world W3/M3 (marker embeddings), text by index over 2; t3.policy.tau_low <= tau_high symbolic reals in [0,1]; t3.max_rag_loops symbolic in {0,1}; t3.max_ops_per_turn symbolic int in [1,16]; t3.tokens symbolic int in [1,64]",
-      split={"ti": [0, 1], "loops": [0, 1]},
+      bounds="one real turn on world W3/M3 (marker embeddings), text by index over 2; t3.policy.tau_low <= tau_high symbolic reals in [0,1]; t3.max_rag_loops in {0, 1, 3} (3 is a value the validator rejects but run_turn reads the configuration as given); t3.max_ops_per_turn symbolic int in [1,16]; t3.tokens symbolic int in [1,64]",
+      split={"ti": [0, 1], "loops": [0, 1, 3]},
       note="C13.b at turn level: t2_semantic runs once for the turn and at most once more for a refinement, the refinement happens only if the plan requested retrieval and max_rag_loops >= 1, retrieval is requested exactly when the best similarity is below the CONFIGURED tau_low (and the op cap leaves room), the Speak intent follows the configured thresholds, the plan log shows at most min(caps) ops led by Speak, and the utterance has at most t3.tokens whitespace tokens")
 def one_refinement(tau_low: float, tau_high: float, loops: int, ops_cap: int, tokens: int, ti: int) -> bool:
     """
     pre: 0.0 <= tau_low <= tau_high <= 1.0
-    pre: 0 <= loops <= 1 and 1 <= ops_cap <= 16 and 1 <= tokens <= 64 and 0 <= ti <= 1
+    pre: 0 <= loops <= 3 and 1 <= ops_cap <= 16 and 1 <= tokens <= 64 and 0 <= ti <= 1
     post: _
     """
     try:
